@@ -2,7 +2,7 @@
 # run the repository's own test-suite on a given commit of /repo in a scratch worktree (removed afterwards)
 # usage: run_repo_tests.sh <commit> <logfile>
 set -u
-C=${1:-HEAD}; LOG=${2:-/tmp/repo_tests.log}
+C=$(git -C /repo rev-parse ${1:-HEAD}); LOG=${2:-/tmp/repo_tests.log}
 WT=$(mktemp -d /tmp/mt-XXXXXX)
 {
 git -C /repo worktree add --detach "$WT" "$C" >/dev/null 2>&1 || { echo "worktree failed"; exit 2; }
